@@ -535,3 +535,10 @@ CHECKS['C15']['partial'] = ['MGET across partitions is not a merge command in th
 CHECKS['C13']['trusted'] = ['MATCH: the store matches the pattern against `table:key` for key scans and against the key part for FULLSCAN of collections, a client sees key parts only; the srvmerge oracle accepts either reading for patterns that do not start with `*` and counts which one the code took (notes match-reading:*); its own matcher knows literals, * and ? only', 'srvmerge is oracle-only for scans (no Lean model of the cross-partition cursor codec)']
 CHECKS['C13']['partial'] = [x for x in CHECKS['C13']['partial'] if 'negative COUNT' not in x and not x.startswith('MATCH;')] + ['MATCH: oracle only (protocols scan: fullm/cfullm; srvmerge); stability under concurrent insert/remove between pages not built', 'a negative COUNT is refused (fix 4c13001)']
 CHECKS['C11']['partial'] = ['C11_error_no_effect / C11_next_command_unaffected are oracle-only', 'read commands and merge commands: fuzz only (merge commands: through the real Server.serverRedis of a multi-partition server in a child process, protocol srvmerge; survival and reply presence only)']
+
+# ---- C11: "an erroring command changes nothing" on the executable storage models (Props/C11Models.lean)
+CHECKS['C11']['props'] = ['ZanVerif.Props.C11', 'ZanVerif.Props.C11Models']
+CHECKS['C11']['level_text'] = CHECKS['C11']['level_text'] + (" ERROR => NOTHING CHANGED on the executable storage models that are tied line by line to the real validation + apply path (C08's protocols): "
+    "for every store, key, argument vector and log time, a KV write (13 commands incl. SET options, SETEX, SETIFEQ, GETSET, INCRBY, APPEND, SETRANGE, EXPIRE, PERSIST), SADD / SREM, LPUSH / RPUSH / LPOP / RPOP / LSET / LTRIM and every "
+    "sorted-set write (ZADD ZREM ZINCRBY ZREMRANGEBYRANK/SCORE/LEX ZCLEAR) that answers an error leaves the store exactly as it was (C11_kv_error_no_effect, C11_sadd/srem/lpush/lpop/lset/ltrim_error_no_effect, C11_zset_error_no_effect).")
+CHECKS['C11']['partial'] = [x for x in CHECKS['C11']['partial'] if not x.startswith('C11_error_no_effect')] + ['error => nothing changed is a theorem for the KV / set / list / zset models (Props/C11Models.lean); hash commands of the model have no error outcome; "nothing leaks into the next command" (the shared write batch) is oracle-only']
